@@ -98,11 +98,22 @@ PinsOK(c, C, P) ==
               /\ (PinKind(c) = "coresgpus" => C.pins[i].gpus = P[i].gpus)
 
 \* a task the method cannot start: single-process methods with more than one
-\* rank or with the MPI flag
-CannotStart(c, ranks, mpi) == SingleProc(c) /\ (ranks > 1 \/ mpi)
+\* rank or with the MPI flag; FORK (no launcher: the process starts where the
+\* executor runs) with any rank that is not on the executor's own node, i.e.
+\* whose node name is not exactly one of local.  Names are compared as whole
+\* strings: a prefix, a short name or an FQDN of the own name is another node.
+CannotStart(c, P, mpi, local) ==
+  \/ SingleProc(c) /\ (Len(P) > 1 \/ mpi)
+  \/ c.m = "FORK" /\ ~(NodeSet(P) \subseteq local)
 
-\* find_launcher: sel is the index into the configured order (0: none)
+\* find_launcher: sel is the index into the configured order (0: none): the
+\* first method whose can_launch holds
 OrderOK(cans, sel) ==
   \/ sel = 0 /\ \A i \in DOMAIN cans : ~cans[i]
   \/ sel \in DOMAIN cans /\ cans[sel] /\ \A j \in 1 .. sel - 1 : ~cans[j]
+
+\* ... and never a method that cannot start the task (the search must fall
+\* through to the next configured method)
+SelAble(cfgs, sel, P, mpi, local) ==
+  sel \in DOMAIN cfgs => ~CannotStart(cfgs[sel], P, mpi, local)
 =============================================================================
